@@ -96,6 +96,14 @@ func main() {
 		if v := h.Attrs["maxpaths"]; v != "" {
 			fmt.Sscan(v, &opt.MaxPaths)
 		}
+		opt.Preempt = 2
+		if v := h.Attrs["preempt"]; v != "" {
+			fmt.Sscan(v, &opt.Preempt)
+		}
+		if v := h.Attrs["timers"]; v != "" {
+			fmt.Sscan(v, &opt.Timers)
+		}
+		opt.AtomicPoints = h.Attrs["atomicpoints"] == "1"
 		if v := h.Attrs["maxinstrs"]; v != "" {
 			fmt.Sscan(v, &opt.MaxInstrs)
 		}
